@@ -209,7 +209,7 @@ def main(run):
                 "observation is in the reservoir named by its own routing; periodically TreeImputer (2 flags x 2 modes, random "
                 "subsets, n in {1,3}): inputs differ from x only on the subset, storage mode values come from the reservoir of the "
                 "instance's leaf (fallback only without reservoir), categorical values are observed classes, n predictions, nothing "
-                "modified; evaluations = invariant / imputer evaluations; non-trivial = updates after which a tree lost a named leaf "
+                "modified; three LONG-LIVED TreeImputers polled before and after the update of an instance (the same object or an equal copy), streams with repeated rows and whole numeric readings as ints in every other random configuration; evaluations = invariant / imputer evaluations; non-trivial = updates after which a tree lost a named leaf "
                 "(the stale-reservoir clause is only exercised there) and distinct imputer cases")
     run.assumptions = ["complete dicts and numeric-coded categories", "explicit tree seed",
                        "leaves whose path constraints are contradictory cannot be named by a witness; a key is judged stale only when "
